@@ -518,6 +518,18 @@ func c15Property(rt *rapid.T) {
 			resp.Header.StreamId = req.Header.StreamId
 			usedIds[req.Header.StreamId] = true
 		}
+		if v == primitive.ProtocolVersion5 && rapid.IntRange(0, 9).Draw(rt, fmt.Sprintf("x%d/maxEnvelope", i)) == 0 {
+			// an envelope of exactly 131071 bytes: the largest that fits one segment (the library sends it self-contained)
+			q := &message.Query{Query: "q", Options: &message.QueryOptions{Consistency: primitive.ConsistencyLevelOne}}
+			big := frame.NewFrame(v, req.Header.StreamId, q)
+			probe, err := ref.EncodeFrame(big)
+			if err != nil {
+				rt.Fatalf("harness defect: %v", err)
+			}
+			target := rapid.SampledFrom([]int{131071, 131071, 131070}).Draw(rt, fmt.Sprintf("x%d/envelopeBytes", i))
+			q.Query = "q" + strings.Repeat("x", target-len(probe.Flat(nil)))
+			req = big
+		}
 		rqe, err := ref.EncodeFrame(req)
 		if err != nil {
 			rt.Fatalf("harness defect: %v", err)
@@ -529,7 +541,7 @@ func c15Property(rt *rapid.T) {
 		ex := c15Exchange{Req: rqe.Flat(nil), Resp: rse.Flat(nil), Compress: rapid.Bool().Draw(rt, fmt.Sprintf("x%d/compress", i)), CompressSg: rapid.Bool().Draw(rt, fmt.Sprintf("x%d/compressSeg", i))}
 		// envelopes the LIBRARY has to send in v5 must fit one segment
 		if v == primitive.ProtocolVersion5 {
-			if (spec.Topology != "raw-lib" && len(ex.Req) > 131000) || (spec.Topology != "lib-raw" && len(ex.Resp) > 131000) {
+			if (spec.Topology != "raw-lib" && len(ex.Req) > 131071) || (spec.Topology != "lib-raw" && len(ex.Resp) > 131071) {
 				i--
 				continue
 			}
